@@ -234,11 +234,23 @@ func c13ListCase(r *mon.Run, lc listCase, c mon.Case) {
 		}
 		if len(held) > 0 {
 			tree := k.mk(items...)
-			first, f4 := rawOf(tree)
+			// the same File object renders the tree before and after the change (a cache keyed by the File
+			// would survive between the two renders)
+			sameFile := jen.NewFile("p")
+			sameFile.NoFormat = true
+			sameFile.Add(tree)
+			renderSame := func() (string, string) {
+				src, fail := renderFile(sameFile)
+				return string(src), fail
+			}
+			first, f4 := renderSame()
 			for i, st := range held {
 				st.Id(fmt.Sprintf("late%dq", i+1))
 			}
-			second, f5 := rawOf(tree)
+			second, f5 := renderSame()
+			if again, _ := rawOf(tree); f5 == "" && again != second {
+				r.Violate("stale-nullness", c, "%s: after the change the tree renders differently in the File that rendered it before than in a fresh File\n--- same File ---\n%s\n--- fresh File ---\n%s", desc(), second, again)
+			}
 			want, f6 := rawOf(k.mk(fresh...))
 			plain, f7 := rawOf(k.mk(bare...))
 			switch {
